@@ -8,6 +8,7 @@ import (
 	"os"
 	"sort"
 	"strings"
+	"sync"
 
 	"golang.org/x/tools/go/packages"
 	"golang.org/x/tools/go/ssa"
@@ -37,6 +38,10 @@ type Engine struct {
 	repoDir  string
 	pureMemo map[string]bool
 	pureDefs []string
+	pix      *preludeIndex
+	pixFor   string
+	pixMu    sync.Mutex
+	noFilter bool
 }
 
 type GlobalInfo struct {
